@@ -17,6 +17,7 @@ curve.  Everything lives in `namespace Dalek.Bridge`.
                         `isTorsionFree_iff`, `decompress_some`, `decompress_none_iff`,
                         `decompress_complete`, `decompress_compress`, `compress_injective`,
                         `compress_decompress`
+* `Bridge/Order.lean`   `L_nsmul_Bpt`, `addOrderOf_Bpt`, `nsmul_Bpt_eq_iff` (the basepoint has order `ℓ`)
 * `Bridge/FastEdwards.lean` `ERep`, `EPt.Valid`, `erep_*`, `rep_toAffine`, `eq_iff`,
                         `toAffine_smul_ofAffine`, `toAffine_msm_ofAffine`, …
 -/
@@ -26,6 +27,7 @@ import Dalek.Proofs.Bridge.Bytes
 import Dalek.Proofs.Bridge.Scalar
 import Dalek.Proofs.Bridge.Edwards
 import Dalek.Proofs.Bridge.FastEdwards
+import Dalek.Proofs.Bridge.Order
 
 namespace Dalek.Bridge
 
@@ -47,7 +49,7 @@ example : decompress (natToLe 2 32) = none := by decide +kernel
 
 /-! ### Axiom audit -/
 
-/-- info: 'Dalek.Bridge.powMod_eq' depends on axioms: [propext, Quot.sound] -/
+/-- info: 'Dalek.Bridge.powMod_eq' depends on axioms: [propext, Classical.choice, Quot.sound] -/
 #guard_msgs in #print axioms powMod_eq
 
 /-- info: 'Dalek.Bridge.cast_finv' depends on axioms: [propext, Classical.choice, Quot.sound] -/
@@ -106,5 +108,11 @@ example : decompress (natToLe 2 32) = none := by decide +kernel
 
 /-- info: 'Dalek.Bridge.eq_iff' depends on axioms: [propext, Classical.choice, Quot.sound] -/
 #guard_msgs in #print axioms eq_iff
+
+/-- info: 'Dalek.Bridge.addOrderOf_Bpt' depends on axioms: [propext, Classical.choice, Quot.sound] -/
+#guard_msgs in #print axioms addOrderOf_Bpt
+
+/-- info: 'Dalek.Bridge.validB_iff' depends on axioms: [propext, Classical.choice, Quot.sound] -/
+#guard_msgs in #print axioms validB_iff
 
 end Dalek.Bridge
